@@ -5,7 +5,7 @@ TECH = "contract-based deductive verification: Verus (Z3) on functions sliced me
 
 PROPERTIES = {
     'C01': dict(
-        units=['u_map', 'u_cascade', 'u_dataset'],
+        units=['u_map', 'u_cascade', 'u_dataset', 'u_sub', 'u_posidx'],
         level_text="Deductive proof (Verus/Z3), for all inputs and without bound, that every reverse-index primitive the store is built from (RelationMap, RelationBTreeMap, TripleRelationMap, ExclusiveRelationMap: insert/remove/remove_all/remove_second/get) changes exactly the addressed row and nothing else. The store-level callbacks that call these primitives are not under contract; the claim is partial and says so.",
         level_note="Trusted: Vec::resize_with / Option::copied std specs, vx_position (Iterator::position semantics, structural == on handles), lawful Ord on handle types (obeys_cmp precondition), 64-bit usize. Not decided: StoreCallbacks<Annotation>::{inserted,preremove}, protect_text.",
         design_ref='DESIGN.md §7.1',
